@@ -3,13 +3,13 @@
 (* File transfer by the service-info modules fdo.download, fdo.upload and   *)
 (* fdo.wget (fsim/*.go) as property C17 sees it.                            *)
 (*                                                                         *)
-(* The source is a file of `len` bytes.  The sender announces a length and   *)
-(* a SHA-384 digest, then the content arrives at the receiver in chunks      *)
-(* (service-info "data" messages for download/upload, the HTTP body for      *)
-(* wget).  One value may be corrupted between the sender and the receiving   *)
-(* module (inside the tunnel): a data byte, the announced digest, or the     *)
-(* length (announced length for download/upload, the length of the body for  *)
-(* wget, which announces no length to the device).                           *)
+(* One TRANSFER.  The source is a file of `len` bytes.  The sender announces *)
+(* a length and a SHA-384 digest, then the content arrives at the receiver   *)
+(* in chunks (service-info "data" messages for download/upload, the HTTP     *)
+(* body for wget).  One value may be corrupted between the sender and the    *)
+(* receiving module (inside the tunnel): a data byte, the announced digest,  *)
+(* or the length (announced length for download/upload, the length of the    *)
+(* body for wget, which announces no length to the device).                  *)
 (* Finalize places the file at the destination iff the received length       *)
 (* equals the announced length and the digest of what was received equals    *)
 (* the announced digest; otherwise it reports failure and the destination    *)
@@ -20,53 +20,108 @@
 (* source bytes.  Actions: AnnounceLen / AnnounceDig (Announce), Data(n),     *)
 (* Finalize, Stall; Corrupt(field) is the scenario's `cor` applied by the     *)
 (* environment actions SendLen / SendDig / SendChunk below.                   *)
+(*                                                                         *)
+(* The HTTP SERVER of a wget transfer (scenario field `srv`) frames the body *)
+(* in one of several ways: with a Content-Length that is the length of what  *)
+(* it serves ("cl"; "redirect": after a 302 to another URL), without any     *)
+(* Content-Length ("nocl": chunked transfer encoding in one piece,           *)
+(* "flushed": chunked, flushed piece by piece, "close": HTTP/1.0 body         *)
+(* delimited by the end of the connection), or with the Content-Length of    *)
+(* the original file while the body is shorter or longer ("clsrc").  The      *)
+(* framing decides what the module is given (AnnounceHttp, Given): a body    *)
+(* longer than its Content-Length is cut there by HTTP; a body shorter than  *)
+(* its Content-Length is a transport error.  Whatever the framing, the file  *)
+(* the module is given decides: identical => placed, else refused.           *)
+(*                                                                         *)
+(* One SESSION.  A TO2 session runs up to MaxXfers transfers one after the   *)
+(* other through ONE instance of the receiving device module (TO2 calls      *)
+(* Transition only when the active state changes, so nothing but the module  *)
+(* itself cleans up between two files).  The module holds a temp file and a  *)
+(* byte counter / running hash (mTemp, mCarry).  Finalize releases them      *)
+(* whatever its outcome (fsim/download_device.go `defer d.reset()`,           *)
+(* wget_device.go deferred Remove + reset in Yield): the module is idle      *)
+(* again, and the next transfer is judged on its own.  The session goes on   *)
+(* after a success, and after a refused download whose owner module has      *)
+(* MustDownload = false (done = -1 is not an error for it); any other        *)
+(* failure ends TO2 with an error.  NextXfer / EndSession.                    *)
+(*                                                                         *)
+(* ResetOnRefusal = FALSE is a sensitivity probe of the model only: a        *)
+(* refusing Finalize that keeps the module state must violate                *)
+(* HonestSucceeds / IdleAfterFinalize (checked by checks/c17.py).             *)
 (***************************************************************************)
-EXTENDS Integers, Sequences, TLC
+EXTENDS Integers, Sequences, FiniteSets, TLC
 
 CONSTANTS
     Modules,     \* subset of {"download", "upload", "wget"}
     MaxLen,      \* file lengths 1..MaxLen (abstract units)
     ChunkLens,   \* chunk lengths in units
-    Deltas       \* by how much a length is corrupted
+    Deltas,      \* by how much a length is corrupted
+    MaxXfers,    \* transfers per session (through one module instance)
+    Servers,     \* subset of {"cl", "nocl", "flushed", "close", "clsrc", "redirect"}
+    Musts,       \* values of DownloadContents.MustDownload, subset of BOOLEAN
+    ResetOnRefusal   \* TRUE: as the code is meant; FALSE: probe
 
 Cors == {"none", "data", "digest", "len+", "len-"}
 
 VARIABLES
-    sc,       \* scenario: [mod, len, chunk, cor, k (index of the corrupted chunk), d (length delta), floor]
+    sess,     \* session: [mod, must]
+    xi,       \* number of the current transfer, 1..MaxXfers
+    sstage,   \* "run" | "over"
+    placed,   \* numbers of the transfers whose file is at the destination
+    mTemp,    \* the receiving module holds a temp file
+    mCarry,   \* bytes (and hash state) the module still holds from before this transfer
+    sc,       \* scenario of the current transfer: [mod, len, chunk, cor, k (index of the corrupted chunk), d (length delta), srv, floor]
     stage,    \* "init" | "xfer" | "end"
     annLen,   \* announced length as the receiver learns it (-1: not yet)
     annDig,   \* "none" | "src" (the digest of the source) | "bad"
+    httpLen,  \* wget: Content-Length of the response (-2: no response yet, -1: none)
     sent,     \* source bytes handed to the transfer
     nchunk,   \* chunks delivered so far
-    rcvLen,   \* bytes the receiving module was given
+    rcvLen,   \* bytes the receiving module was given in this transfer
     taint,    \* some received byte differs from the source byte at its position
     dest,     \* "absent" | "same" (a file with the source bytes under the announced name) | "other"
-    result    \* "none" | "success" | "failure"
+    result,   \* "none" | "success" | "failure"
+    stalled   \* the transfer ended without Finalize
 
-vars == <<sc, stage, annLen, annDig, sent, nchunk, rcvLen, taint, dest, result>>
+xvars == <<sc, stage, annLen, annDig, httpLen, sent, nchunk, rcvLen, taint, dest, result, stalled>>
+svars == <<sess, xi, sstage, placed, mTemp, mCarry>>
+vars  == <<svars, xvars>>
 
 Min(a, b) == IF a < b THEN a ELSE b
 Max(a, b) == IF a > b THEN a ELSE b
 
 RcvIsSource  == rcvLen = sc.len /\ ~taint
 RcvDig       == IF RcvIsSource THEN "src" ELSE "different"
-Matches      == annLen = rcvLen /\ annDig = RcvDig             \* what Finalize verifies
+Matches      == annLen = rcvLen /\ annDig = RcvDig             \* the property's condition on THIS transfer
+(* what Finalize verifies: the module's counter and hash, which are this transfer's iff nothing was carried *)
+Verified     == annLen = mCarry + rcvLen /\ annDig = (IF mCarry = 0 THEN RcvDig ELSE "different")
 
 Scenarios ==
-    {[mod |-> m, len |-> l, chunk |-> c, cor |-> x, k |-> k, d |-> d, floor |-> FALSE] :
-        m \in Modules, l \in 1..MaxLen, c \in ChunkLens, x \in Cors, k \in 1..3, d \in Deltas}
+    {[mod |-> m, len |-> l, chunk |-> c, cor |-> x, k |-> k, d |-> d, srv |-> s, floor |-> FALSE] :
+        m \in Modules, l \in 1..MaxLen, c \in ChunkLens, x \in Cors, k \in 1..3, d \in Deltas, s \in Servers \cup {"na"}}
+
+MaxChunk == CHOOSE c \in ChunkLens : \A e \in ChunkLens : c >= e
 
 Canonical(s) ==       \* parameters that do not matter for a corruption class are pinned
     /\ (s.cor # "data" => s.k = 1)
     /\ (s.cor = "data" => s.k <= (s.len + s.chunk - 1) \div s.chunk)
     /\ (s.cor \notin {"len+", "len-"} => s.d = CHOOSE d \in Deltas : \A e \in Deltas : d <= e)
-    /\ (s.mod = "wget" => s.chunk = CHOOSE c \in ChunkLens : \A e \in ChunkLens : c >= e)   \* one HTTP body
+    /\ (s.mod # "wget" <=> s.srv = "na")
+    /\ (s.mod = "wget" /\ s.srv # "flushed" => s.chunk = MaxChunk)   \* one HTTP body; "flushed": pieces of `chunk`
+    /\ (s.srv = "clsrc" => s.cor \in {"len+", "len-"})                  \* otherwise the same as "cl"
+
+ScenFor(m) == {s \in Scenarios : Canonical(s) /\ s.mod = m}
+
+XferInit ==
+    /\ stage = "init" /\ annLen = -1 /\ annDig = "none" /\ httpLen = -2
+    /\ sent = 0 /\ nchunk = 0 /\ rcvLen = 0 /\ taint = FALSE
+    /\ dest = "absent" /\ result = "none" /\ stalled = FALSE
 
 Init ==
-    /\ sc \in {s \in Scenarios : Canonical(s)}
-    /\ stage = "init" /\ annLen = -1 /\ annDig = "none"
-    /\ sent = 0 /\ nchunk = 0 /\ rcvLen = 0 /\ taint = FALSE
-    /\ dest = "absent" /\ result = "none"
+    /\ sess \in {s \in [mod : Modules, must : Musts] : s.mod # "download" => s.must = (CHOOSE b \in Musts : TRUE)}
+    /\ xi = 1 /\ sstage = "run" /\ placed = {} /\ mTemp = FALSE /\ mCarry = 0
+    /\ sc \in ScenFor(sess.mod)
+    /\ XferInit
 
 (* The receiving module learns the length (download: before the data; upload: before the data; wget: the  *)
 (* owner keeps it).                                                                                     *)
@@ -74,39 +129,80 @@ AnnounceLen(n) ==
     /\ stage \in {"init", "xfer"} /\ annLen = -1
     /\ annLen' = n
     /\ stage' = "xfer"
-    /\ UNCHANGED <<sc, annDig, sent, nchunk, rcvLen, taint, dest, result>>
+    /\ UNCHANGED <<svars, sc, annDig, httpLen, sent, nchunk, rcvLen, taint, dest, result, stalled>>
 
 (* ... and the digest (upload: after the data).                                                          *)
 AnnounceDig(ok) ==
     /\ stage \in {"init", "xfer"} /\ annDig = "none"
     /\ annDig' = IF ok THEN "src" ELSE "bad"
     /\ stage' = "xfer"
-    /\ UNCHANGED <<sc, annLen, sent, nchunk, rcvLen, taint, dest, result>>
+    /\ UNCHANGED <<svars, sc, annLen, httpLen, sent, nchunk, rcvLen, taint, dest, result, stalled>>
+
+(* wget: the response header arrives; n = its Content-Length, -1 if it has none.                          *)
+AnnounceHttp(n) ==
+    /\ stage \in {"init", "xfer"} /\ httpLen = -2 /\ n >= -1
+    /\ httpLen' = n
+    /\ stage' = "xfer"
+    /\ UNCHANGED <<svars, sc, annLen, annDig, sent, nchunk, rcvLen, taint, dest, result, stalled>>
+
+(* HTTP framing: of n body bytes on the wire the module is given those within the Content-Length.        *)
+Given(n) == IF httpLen >= 0 THEN Min(n, Max(0, httpLen - rcvLen)) ELSE n
+(* the body ended before the Content-Length was reached: a transport error                               *)
+Short    == httpLen >= 0 /\ rcvLen < httpLen
 
 (* A chunk of n bytes is given to the receiving module; same = it equals the source at this position.    *)
+(* It goes to the module's temp file and running hash.                                                  *)
 Data(n, same) ==
     /\ stage \in {"init", "xfer"}
-    /\ rcvLen' = rcvLen + n
-    /\ taint' = (taint \/ ~same \/ rcvLen + n > sc.len)
+    /\ LET m == Given(n) IN
+       /\ rcvLen' = rcvLen + m
+       /\ taint' = (taint \/ (m > 0 /\ ~same) \/ rcvLen + m > sc.len)
     /\ nchunk' = nchunk + 1
+    /\ mTemp' = TRUE
     /\ stage' = "xfer"
-    /\ UNCHANGED <<sc, annLen, annDig, dest, result>>      \* `sent` is the caller's
+    /\ UNCHANGED <<sess, xi, sstage, placed, mCarry, sc, annLen, annDig, httpLen, dest, result, stalled>>      \* `sent` is the caller's
 
-(* The receiver verifies and places the file, or reports failure.                                        *)
+(* The receiver verifies and places the file, or reports failure; either way it lets go of the temp file,  *)
+(* the counter and the hash: it is idle for the next file.                                                *)
 Finalize ==
     /\ stage = "xfer"
-    /\ IF Matches
-       THEN dest' = (IF RcvIsSource THEN "same" ELSE "other") /\ result' = "success"
-       ELSE dest' = "absent" /\ result' = "failure"
+    /\ IF Verified /\ ~Short
+       THEN /\ dest' = (IF RcvIsSource /\ mCarry = 0 THEN "same" ELSE "other") /\ result' = "success"
+            /\ placed' = placed \cup {xi}
+       ELSE /\ dest' = "absent" /\ result' = "failure"
+            /\ placed' = placed
+    /\ IF (Verified /\ ~Short) \/ ResetOnRefusal
+       THEN mTemp' = FALSE /\ mCarry' = 0
+       ELSE mTemp' = mTemp /\ mCarry' = mCarry + rcvLen
     /\ stage' = "end"
-    /\ UNCHANGED <<sc, annLen, annDig, sent, nchunk, rcvLen, taint>>
+    /\ UNCHANGED <<sess, xi, sstage, sc, annLen, annDig, httpLen, sent, nchunk, rcvLen, taint, stalled>>
 
 (* The announced length is never reached: the transfer never finalizes; the bounded TO2 ends in error.   *)
 Stall ==
-    /\ stage = "xfer" /\ rcvLen < annLen
-    /\ dest' = "absent" /\ result' = "failure"
+    /\ stage = "xfer" /\ mCarry + rcvLen < annLen
+    /\ dest' = "absent" /\ result' = "failure" /\ stalled' = TRUE
     /\ stage' = "end"
-    /\ UNCHANGED <<sc, annLen, annDig, sent, nchunk, rcvLen, taint>>
+    /\ UNCHANGED <<svars, sc, annLen, annDig, httpLen, sent, nchunk, rcvLen, taint>>
+
+-----------------------------------------------------------------------------
+(* The session.                                                                                          *)
+Continues ==
+    \/ result = "success"
+    \/ result = "failure" /\ ~stalled /\ sess.mod = "download" /\ ~sess.must     \* done = -1 is accepted by the owner module
+
+NextXfer ==
+    /\ sstage = "run" /\ stage = "end" /\ Continues /\ xi < MaxXfers
+    /\ xi' = xi + 1
+    /\ sc' \in ScenFor(sess.mod)
+    /\ stage' = "init" /\ annLen' = -1 /\ annDig' = "none" /\ httpLen' = -2
+    /\ sent' = 0 /\ nchunk' = 0 /\ rcvLen' = 0 /\ taint' = FALSE
+    /\ dest' = "absent" /\ result' = "none" /\ stalled' = FALSE
+    /\ UNCHANGED <<sess, sstage, placed, mTemp, mCarry>>
+
+EndSession ==
+    /\ sstage = "run" /\ stage = "end"
+    /\ sstage' = "over"
+    /\ UNCHANGED <<sess, xi, placed, mTemp, mCarry, xvars>>
 
 -----------------------------------------------------------------------------
 (* The honest sender and the adversary in the tunnel, driven by the scenario.                            *)
@@ -114,6 +210,10 @@ SrcLen     == sc.len
 CorLen(n)  == CASE sc.cor = "len+" -> n + sc.d [] sc.cor = "len-" -> Max(0, n - sc.d) [] OTHER -> n
 BodyLen    == IF sc.mod = "wget" THEN CorLen(SrcLen) ELSE SrcLen        \* wget: the HTTP body is what is altered
 AllSent    == sent = BodyLen
+HdrLen     == CASE sc.srv \in {"cl", "redirect"} -> BodyLen
+                [] sc.srv = "clsrc"              -> SrcLen
+                [] OTHER                         -> -1
+Held       == mCarry + rcvLen                    \* the module's byte counter
 
 SendLen ==
     /\ annLen = -1 /\ (sc.mod = "upload" \/ annDig # "none" \/ sc.mod = "wget")
@@ -124,35 +224,54 @@ SendDig ==
     /\ (sc.mod = "upload" => AllSent /\ annLen # -1)       \* upload sends sha-384 after the data
     /\ AnnounceDig(sc.cor # "digest")
 
+SendHdr ==
+    /\ sc.mod = "wget" /\ annLen # -1 /\ annDig # "none"
+    /\ AnnounceHttp(HdrLen)
+
 SendChunk ==
+    /\ sstage = "run"
     /\ annLen # -1 /\ (sc.mod # "upload" => annDig # "none")
+    /\ (sc.mod = "wget" => httpLen # -2)
     /\ ~AllSent
-    /\ (sc.mod = "download" => rcvLen < annLen)           \* the device finalizes as soon as the length is reached
-    /\ LET n == Min(sc.chunk, BodyLen - sent) IN
+    /\ (sc.mod = "download" => Held < annLen)             \* the device finalizes as soon as the length is reached
+    /\ LET n0 == Min(sc.chunk, BodyLen - sent)
+           n  == IF sent < SrcLen THEN Min(n0, SrcLen - sent) ELSE n0      \* a piece does not straddle the end of the source
+       IN
        /\ Data(n, ~(sc.cor = "data" /\ nchunk + 1 = sc.k) /\ sent + n <= SrcLen)
        /\ sent' = sent + n
 
 Finish ==
     /\ annLen # -1 /\ annDig # "none"
-    /\ \/ rcvLen >= annLen /\ (sc.mod = "download" \/ AllSent) /\ Finalize
-       \/ sc.mod = "wget" /\ AllSent /\ Finalize                           \* wget verifies when the body ends
-       \/ AllSent /\ rcvLen < annLen /\ sc.mod # "wget" /\ Stall
+    /\ \/ Held >= annLen /\ (sc.mod = "download" \/ AllSent) /\ sc.mod # "wget" /\ Finalize
+       \/ sc.mod = "wget" /\ httpLen # -2 /\ AllSent /\ Finalize                  \* wget verifies when the body ends
+       \/ AllSent /\ Held < annLen /\ sc.mod # "wget" /\ Stall
 
-Next == SendLen \/ SendDig \/ SendChunk \/ Finish
+Next == SendLen \/ SendDig \/ SendHdr \/ SendChunk \/ Finish \/ NextXfer \/ EndSession
 
 Spec == Init /\ [][Next]_vars
 
 -----------------------------------------------------------------------------
-(* C17 *)
+(* C17, for every transfer of a session *)
+(* a body longer than the Content-Length of the original file is cut to the original file by HTTP       *)
+Masked           == sc.mod = "wget" /\ sc.srv = "clsrc" /\ sc.cor = "len+"
 SuccessIdentical == result = "success" => dest = "same"
 MismatchFails    == (stage = "end" /\ ~Matches) => (result = "failure" /\ dest = "absent")
 NeverPartial     == dest \in {"absent", "same"}
-HonestSucceeds   == (stage = "end" /\ sc.cor = "none") => (result = "success" /\ dest = "same")
-CorruptFails     == (stage = "end" /\ sc.cor # "none") => (result = "failure" /\ dest = "absent")
+HonestSucceeds   == (stage = "end" /\ (sc.cor = "none" \/ Masked)) => (result = "success" /\ dest = "same")
+CorruptFails     == (stage = "end" /\ sc.cor # "none" /\ ~Masked) => (result = "failure" /\ dest = "absent")
+(* the module is idle after every Finalize, whatever its outcome; it matters where the session goes on:   *)
+(* the same instance gets the next file (a receiver of a session that ends in error is thrown away)        *)
+IdleAfterFinalize == (stage = "end" /\ ~stalled) => (~mTemp /\ mCarry = 0)
+IdleWhenContinuing == (stage = "end" /\ Continues) => (~mTemp /\ mCarry = 0)
+PlacedIsSuccess  == (stage = "end") => ((xi \in placed) <=> (result = "success"))
 TypeOK ==
     /\ stage \in {"init", "xfer", "end"} /\ dest \in {"absent", "same", "other"}
     /\ result \in {"none", "success", "failure"} /\ annDig \in {"none", "src", "bad"}
+    /\ sstage \in {"run", "over"} /\ xi \in 1..MaxXfers /\ placed \subseteq 1..xi
+    /\ mTemp \in BOOLEAN /\ mCarry \in Nat /\ httpLen >= -2 /\ stalled \in BOOLEAN
 
-(* vacuity probe *)
-NeverEnds == stage # "end"
+(* vacuity probes *)
+NeverEnds     == stage # "end"
+NeverSecond   == ~(xi > 1 /\ stage = "end" /\ result = "success")
+NeverAfterRefusal == ~(xi > 1 /\ stage = "end" /\ result = "success" /\ Cardinality(placed) < xi)
 =============================================================================
